@@ -106,21 +106,43 @@ def flags(repo):
 
     # ---- aggregate element loops
     vals = []
+    miss = []
     for txt, cls in [(ag, "STEPaggregate"), (ae, "EntityAggregate"), (asel, "SelectAggregate")]:
         b = _strip(_body(txt, r"Severity\s+" + cls + r"::ReadValue\(", cls + "::ReadValue"))
         m = re.search(r"errdesc\.ClearErrorMsg\(\)\s*;(.*?)if\(\s*exchangeFileFormat\s*\)", b, re.S)
         if not m:
             raise ValueError(f"{cls}::ReadValue: element loop changed")
         t = m.group(1).strip()
+        peek = r"const\s+int\s+next\s*=\s*in\.peek\(\)\s*;\s*const\s+bool\s+missing\s*=\s*\(\s*next\s*==\s*','\s*\|\|\s*next\s*==\s*'\)'\s*\)\s*;"
+        verdict = (r"CheckRemainingInput\(\s*in\s*,\s*&errdesc\s*,\s*buf\s*,\s*\",\)\"\s*\)\s*;\s*if\(\s*missing\s*\)\s*\{\s*"
+                   r"errdesc\.GreaterSeverity\(\s*SEVERITY_WARNING\s*\)\s*;[^{}]*\}\s*if\(\s*errdesc\.severity\(\)\s*<\s*SEVERITY_INCOMPLETE\s*\)")
         if t == "":
-            vals.append(False)
+            vals.append(False); miss.append(False)
         elif re.fullmatch(r"ReadTokenSeparator\(\s*in\s*\)\s*;", t):
-            vals.append(True)
+            vals.append(True); miss.append(False)
+        elif re.fullmatch(r"ReadTokenSeparator\(\s*in\s*\)\s*;\s*" + peek, t) and re.search(verdict, b) and len(re.findall(r"\bmissing\b", b)) == 2:
+            vals.append(True); miss.append(True)
         else:
             raise ValueError(f"{cls}::ReadValue: unknown code before the element read: {t[:80]!r}")
-    if len(set(vals)) != 1:
-        raise ValueError(f"aggregate element loops disagree about skipping token separators: {vals}")
+        if not miss[-1] and "missing" in b:
+            raise ValueError(f"{cls}::ReadValue: unknown use of `missing`")
+    if len(set(vals)) != 1 or len(set(miss)) != 1:
+        raise ValueError(f"aggregate element loops disagree: separators {vals}, missing element {miss}")
     out["aggrSkipsComments"] = vals[0]
+    out["aggrReportsMissingElement"] = miss[0]
+    # ---- elements of an aggregate of NUMBER (RealAggregate / RealNode)
+    ar = _strip(rd("src/clstepcore/STEPaggrReal.cc"))
+    n_rr = len(re.findall(r"if\(\s*ReadReal\(\s*value\s*,\s*(?:s|in)\s*,\s*err\s*,\s*\",\)\"\s*\)\s*\)", ar))
+    n_rn = len(re.findall(r"if\(\s*number\s*\?\s*ReadNumber\(\s*value\s*,\s*(s|in)\s*,\s*err\s*,\s*\",\)\"\s*\)\s*:\s*ReadReal\(\s*value\s*,\s*\1\s*,\s*err\s*,\s*\",\)\"\s*\)\s*\)", ar))
+    if (n_rr, n_rn) == (4, 0) and "ReadNumber" not in ar and "number" not in ar.replace("NUMBER", ""):
+        out["numberElemReadsNumber"] = False
+    elif (n_rr, n_rn) == (0, 4) and re.search(
+            r"Severity\s+RealAggregate::ReadValue\([^)]*\)\s*\{\s*_number\s*=\s*elem_type\s*&&\s*\(\s*elem_type->NonRefType\(\)\s*==\s*NUMBER_TYPE\s*\)\s*;\s*"
+            r"return\s+STEPaggregate::ReadValue\(\s*in\s*,\s*err\s*,\s*elem_type\s*,\s*insts\s*,\s*addFileId\s*,\s*assignVal\s*,\s*exchangeFileFormat\s*,\s*currSch\s*\)\s*;\s*\}", ar) \
+            and re.search(r"SingleLinkNode\s*\*\s*RealAggregate::NewNode\(\)\s*\{\s*RealNode\s*\*\s*n\s*=\s*new\s+RealNode\(\)\s*;\s*n->number\s*=\s*_number\s*;\s*return\s+n\s*;\s*\}", ar):
+        out["numberElemReadsNumber"] = True
+    else:
+        raise ValueError(f"RealNode: element readers changed ({n_rr} ReadReal, {n_rn} ReadNumber/ReadReal)")
 
     # ---- SkipInstance
     rf0 = rd("src/clstepcore/read_func.cc")
@@ -294,7 +316,9 @@ def rwCfg : StepModel.P21.RWCfg :=
     skipInstanceSkipsComments := {_b(f['skipInstanceSkipsComments'])},
     missingSemicolonReported := {_b(f['missingSemicolonReported'])},
     fillerOnlyForDollar := {_b(f['fillerOnlyForDollar'])},
-    errorResyncsFromStart := {_b(f['errorResyncsFromStart'])} }}
+    errorResyncsFromStart := {_b(f['errorResyncsFromStart'])},
+    numberElemReadsNumber := {_b(f['numberElemReadsNumber'])},
+    aggrReportsMissingElement := {_b(f['aggrReportsMissingElement'])} }}
 
 /-- the literal-level switches, re-derived by this extractor (C09's `Generated.lexCfg` is the primary tie for them) -/
 def rwLexCfg : StepModel.P21.LexCfg :=
